@@ -131,6 +131,17 @@ def generate(rng, repo_root, config="A", opts=None):
     # id()-keyed memos, arrays kept by reference) is reachable.  References always get private copies.
     if rng.random() < 0.4:
         scn["share_arrays"] = True
+    # twin objects: two reservoirs built from EQUAL constructor arguments (same class, nx, pressures, the same
+    # shared fluid object) - state keyed on an object's value instead of its identity (dataclass __eq__/__hash__,
+    # memo keys made of field values) is only reachable this way
+    if len(objs) >= 2 and rng.random() < 0.25:
+        j = rng.randrange(1, len(objs))
+        if objs[j]["cls"] != "MultiPhaseReservoir":
+            objs[j] = dict(objs[0])
+            scn["twin_objects"] = [0, j]
+            for op in ops:
+                if op["obj"] == j and op.get("sched") is not None and not op.get("fault"):
+                    op["sched"] = None     # drawn for the former object's fluid
     return scn
 
 
@@ -507,6 +518,8 @@ class Runner:
         self.table_digest0 = [world.table_digest(t) for t in tables]
         objs = [world.make_reservoir(ns, o, fluids) for o in scn["objects"]]
         nobj = len(objs)
+        if scn.get("twin_objects"):
+            self.probe("twin_objects_equal_constructor_arguments")
         cands = [[] for _ in range(nobj)]        # live reference candidates per object
         completed = [False] * nobj               # a simulate has completed on the reference side
         pending_fail = [False] * nobj            # last simulate attempt failed / was cut short
